@@ -22,14 +22,14 @@ SourceKinds == {"src", "timer", "fb"}
 ActiveIns(n) ==
     CASE n.kind \in SourceKinds -> {}
       [] n.kind = "sample"      -> {1}
-      [] n.kind \in {"sum2", "sumu"} -> {1, 2}
+      [] n.kind \in {"sum2", "sumu", "keymix"} -> {1, 2}
       [] OTHER                  -> {1}
 
 \* indexes of the inputs that must hold a value for user code to run
 ValidIns(n) ==
     CASE n.kind \in SourceKinds -> {}
       [] n.kind = "sumu"        -> {1}
-      [] n.kind \in {"sum2", "sample"} -> {1, 2}
+      [] n.kind \in {"sum2", "sample", "keymix"} -> {1, 2}
       [] OTHER                  -> {1}
 
 \* does the kind produce an output at all
@@ -49,6 +49,7 @@ F(n, iv, iok, s) ==
       [] n.kind = "sum2"   -> [w |-> TRUE, v |-> iv[1] + iv[2], s |-> s]
       [] n.kind = "sumu"   -> [w |-> TRUE, v |-> iv[1] + (IF iok[2] THEN iv[2] ELSE 0), s |-> s]
       [] n.kind = "sample" -> [w |-> TRUE, v |-> iv[2], s |-> s]
+      [] n.kind = "keymix" -> [w |-> TRUE, v |-> iv[1] * 100 + iv[2], s |-> s]   \* (key, x) inside a mapped child
       [] n.kind = "acc"    -> [w |-> TRUE, v |-> s + iv[1], s |-> s + iv[1]]
       [] n.kind = "count"  -> [w |-> TRUE, v |-> s + 1, s |-> s + 1]
       [] n.kind = "throwneg" -> IF iv[1] < 0 THEN [w |-> FALSE, v |-> 0, s |-> s]
